@@ -771,7 +771,8 @@ def preconditions(sm, R, rule):
                 sub = bv_.switch_subject(sb)
                 if sub is not None:
                     term = bv_.trace_place(sub[0]) if isinstance(sub[0], dict) else None
-                    if term is not None and term[0] == "phi" and len(term[1]) >= 2 and all(a[0] == "agg" and a[1] == "adt" for a in term[1]) and len(set(a[2] for a in term[1])) >= 2:
+                    if term is not None and term[0] == "phi" and len(term[1]) >= 2 and all(a[0] == "agg" and a[1] == "adt" for a in term[1]) and len(set(a[2] for a in term[1])) >= 2 \
+                            and any("update_check_allowed(" in core_fmt(a)[:1500] for a in term[1]) and any(not a[3] for a in term[1]):
                         hit_ = "%s switches on a value merged from %d constructed alternatives" % (lib.loc(bv_, sb), len(term[1]))
                 else:
                     ct = _unflip(bv_.trace_op(tt["o"]))
